@@ -10,7 +10,7 @@ RULE = ('Hypothesis-generated lifecycle programs: 0-2 older Systems (with an ass
         'failure, Buffer, PartHandler in a Group, GroupPath, complementary DecisionGates, PartHandler, PartBatcher, '
         'Sink, Maintainer, ActionScheduler, PeriodicSensor, OutputPartSensor, Cms; generated cycle times, capacities, '
         'intervals) is created inside an event at generated time T > 0 of a running simulation (twin A) or before the '
-        'start (twin B); 1-3 consecutive simulate calls; tie-break policy fifo/lifo/const. Oracle: each asset is in '
+        'start (twin B), or between two simulate() calls; the source optionally with all defaults (no generator, cycle 0, finite budget); older systems optionally simulate before they are replaced; 1-3 consecutive simulate calls; tie-break policy fifo/lifo/const. Oracle: each asset is in '
         'the latest system\'s list exactly once and in no older one; late-created assets are initialised immediately, '
         'early ones only at the first simulate; an older System raises RuntimeError on simulate; find_assets equals '
         'the list comprehension over the registered assets for all 400 filter combinations tried; TWIN RELATION: all '
@@ -34,11 +34,12 @@ def cases():
         'b_delay': st.sampled_from([0, 0.5]), 'b_cap': st.sampled_from([1, 3]), 'gh_c': st.sampled_from([0, 0.5, 1]),
         'h_c': st.sampled_from(G), 'batch': st.sampled_from([None, 2]), 'k_c': st.sampled_from([0, 1]),
         'cyc': st.booleans(), 'iv': st.sampled_from([0.5, 1.25]), 'cap': st.sampled_from([2, 'inf']),
-        'n': st.sampled_from([0, 1])})
+        'n': st.sampled_from([0, 1]), 'default_source': st.sampled_from([False, False, True])})
     return st.fixed_dictionaries({
         'attach': st.sampled_from([None, None] + lifecycle.ATTACH_KINDS),
         'kit': kit, 'when': st.sampled_from([0.5, 1, 3, 4.25]), 'hz': st.sampled_from([6, 12, 20]),
         'split': st.sampled_from([[1], [1], [0.25, 0.75], [0.5, 0.125, 0.375]]), 'older': st.sampled_from([0, 0, 1, 2]),
+        'older_ran': st.booleans(), 'between': st.sampled_from([False, False, True]),
         'tb': st.tuples(st.sampled_from(['fifo', 'lifo', 'const']), st.just(0)).map(list)})
 
 
@@ -61,7 +62,11 @@ def run_case(case, ctx):
     r = lifecycle.run(case)
     classes = ['late-creation-inside-event', 'attach:' + str(case.get('attach'))]
     if case['older']:
-        classes.append('older-systems')
+        classes.append('older-systems-that-ran' if case.get('older_ran') else 'older-systems')
+    if case.get('between') and not case.get('attach'):
+        classes.append('created-between-two-simulate-calls')
+    if case['kit'].get('default_source'):
+        classes.append('source-with-all-defaults')
     if len(case['split']) > 1:
         classes.append('continued-simulation')
     return {'nontrivial': r['records'] >= 20, 'classes': classes, 'counters': {'records': r['records'], 'finds': r['finds']}}
